@@ -1962,6 +1962,10 @@ impl Check for C06 {
             "diag-deprecated-use-on-selected-line",
         ]
     }
+    fn fuzz_families(&self, _tier: Tier) -> Vec<(&'static str, u64)> {
+        // libFuzzer runs per job (16 jobs), sized from the measured speed of the instrumented build
+        vec![("files", 40000), ("multifile", 25000)]
+    }
     fn families(&self, tier: Tier) -> Vec<Family<'_>> {
         let max_lines: u32 = tier.pick(4, 5);
         let max_expr: u32 = tier.pick(5, 7);
